@@ -137,6 +137,7 @@ func (n *node) release() {
 		from.mu.Unlock()
 
 		if shouldRelease {
+			verifEv("rel.spawn", from, nil)
 			from.release()
 		}
 	}
@@ -179,6 +180,7 @@ func (n *node) addOut(to *node) {
 		go to.invalidate()
 	}
 	if shouldRelease {
+		verifEv("rel.spawn", n, nil)
 		go n.release()
 	}
 }
